@@ -19,6 +19,10 @@ def SLayer.toLayer : SLayer → Layer
   | .dns id => .dns id
   | .payload => .raw
   | .radiotap => .radiotap
+  | .loopback f => .loopback f
+  | .bootp xid => .bootp xid
+  | .dhcpv6 hdr => .dhcpv6 hdr
+  | .arp spa tpa => .arp spa tpa
 
 def toModel (r : List SLayer) : List Layer := r.map SLayer.toLayer
 
@@ -39,6 +43,10 @@ def Layer.toSLayer? : Layer → Option SLayer
   | .dns id => some (.dns id)
   | .raw => some .payload
   | .radiotap => some .radiotap
+  | .loopback f => some (.loopback f)
+  | .bootp xid => some (.bootp xid)
+  | .dhcpv6 hdr => some (.dhcpv6 hdr)
+  | .arp spa tpa => some (.arp spa tpa)
   | _ => none
 
 def toSpec? (st : List Layer) : Option (List SLayer) := st.mapM Layer.toSLayer?
